@@ -1,6 +1,12 @@
 # -*- coding: utf-8 -*-
 """Shared generators.  Every random choice comes from the rng passed in."""
 import itertools
+import os
+
+
+def budget(n):
+    """random-case budget, raised by the source-drift sentinel (VERIF_BOOST)"""
+    return n * int(os.environ.get('VERIF_BOOST', '1'))
 
 
 def alphabet(rng, k=None, kind=None):
